@@ -68,7 +68,8 @@ class RegistryServer(object):
 
     def _remove_service(self, name, addrinfo):
         """removes a single server of the given service"""
-        self.services[name].pop(addrinfo, None)
+        if self.services[name].pop(addrinfo, None) is None:
+            return  # was not registered under this name: nothing changed, nobody to notify
         if not self.services[name]:
             del self.services[name]
         try:
